@@ -1138,11 +1138,11 @@ func (c *Client) getSupportedVersion(ctx context.Context) (*GetSupportedVersionR
 	}
 	defer resp.Close()
 
-	data := make([]byte, resp.payloadLen)
-	if _, err := io.ReadFull(resp.payload, data); err != nil {
-		return nil, err
-	}
-	if err := resp.Close(); err != nil {
+	// Use data() rather than reading resp.payload directly:
+	// it refuses replies that declare more than MaxBufferedPayloadSz
+	// (which arrive without a payload reader) instead of allocating their declared size.
+	data, err := resp.data()
+	if err != nil {
 		return nil, err
 	}
 
